@@ -366,12 +366,16 @@ def z_r4_conversion(p: Project, rep: Report):
         off = params[2]
         rps, _ = return_paths(nfn, expander=Expander(nfn))
         for i, (pth, rtxt, sc) in enumerate(rps):
-            if f"+ {off}" in rtxt or f"{off} +" in rtxt:
+            if f"{off} //" in rtxt or "// 3600" in rtxt or ".seconds //" in rtxt:
+                rep.check("Z-R4", f"{name}.normalize_to_gmt:subtracts-offset-labels-UTC", False, f"returns {rtxt[:90]}: only the WHOLE HOURS of the offset are applied (floor division), the .MM minutes of offsets such as +5.30 are dropped", tloc(p, nfn0))
+            elif f"+ {off}" in rtxt or f"{off} +" in rtxt:
                 rep.check("Z-R4", f"{name}.normalize_to_gmt:subtracts-offset-labels-UTC", False, f"returns {rtxt[:80]}: the offset is ADDED; local time minus its UTC offset is UTC", tloc(p, nfn0))
             elif f"- {off}" in rtxt and "tzinfo=utils.UTC" in rtxt.replace(" ", "").replace("tzinfo=UTC", "tzinfo=utils.UTC"):
                 rep.check("Z-R4", f"{name}.normalize_to_gmt:subtracts-offset-labels-UTC", True, "", tloc(p, nfn0))
             elif f"- {off}" in rtxt:
                 rep.check("Z-R4", f"{name}.normalize_to_gmt:subtracts-offset-labels-UTC", False, f"returns {rtxt[:80]}: the shifted value is not labelled UTC", tloc(p, nfn0))
+            elif f"{off} //" in rtxt or "// 3600" in rtxt or ".seconds //" in rtxt:
+                rep.check("Z-R4", f"{name}.normalize_to_gmt:subtracts-offset-labels-UTC", False, f"returns {rtxt[:90]}: only the WHOLE HOURS of the offset are applied (floor division), the .MM minutes of offsets such as +5.30 are dropped", tloc(p, nfn0))
             else:
                 rep.note(f"Z-R4 undecided: {name}.normalize_to_gmt returns {rtxt[:60]}")
     # --- the reader returns the normalised value
@@ -386,6 +390,31 @@ def z_r4_conversion(p: Project, rep: Report):
     if pfn0 is not None:
         pfn = flat(p, TYPES, pfn0, dt)
         pp = params_of(pfn0)
+        # the zone-name table is a fallback for hours that could not be parsed - never for a parsed offset (0 included)
+        from . import paths as _PT4
+
+        try:
+            ppl = _PT4.enumerate_paths(pfn, None, Expander(pfn), resolve=False)
+        except AnalysisError as e:
+            ppl = None
+            rep.note(f"Z-R4 undecided: {e}")
+        if ppl is not None:
+            pcfg_ = ppl.cfg
+            lookups = [n_ for n_ in pcfg_.nodes if n_.stmt is not None and n_.kind not in ("join", "handlers") and any(isinstance(x, ast.Subscript) and isinstance(x.ctx, ast.Load) and text(x.value).endswith("TZS") for e_ in n_.exprs() for x in ast.walk(e_))]
+            bad_ = None
+            seen_ = 0
+            for ln in lookups:
+                for q in ppl:
+                    cb = q.conds_before(ln.id)
+                    if cb is None:
+                        continue
+                    seen_ += 1
+                    failed = any(w is True and any(a.startswith("raises(") and "int(" in a for a in c_.atoms()) for c_, w in cb)
+                    is_none = any(_PT4.simple_conds(cb).get(a) is True for a in _PT4.simple_conds(cb) if a.endswith(" is None") and "hour" in a)
+                    if not failed and not is_none:
+                        bad_ = _PT4.simple_conds(cb)
+            if seen_:
+                rep.check("Z-R4", "parse_gmt_offset:zone-table-only-when-hours-unparsable", bad_ is None, f"the zone-name table is consulted on a path where the offset hours were parsed (taken when {bad_}): a text such as [0:EST] is read with EST's offset instead of 0 - the name is only a label" if bad_ is not None else "", tloc(p, pfn0))
         rps, _ = return_paths(pfn, expander=Expander(pfn))
         for pth, rtxt, sc in rps:
             import re as _re
